@@ -38,7 +38,7 @@ def dump_index(ck, dd):
 def explore(ck):
     r = ck.rng; quick = ck.tier == 'quick'
     ck.rule = ('the real binary on chains with 40-120 transactions per block and up to 60 outputs per transaction (the same hash under P2PKH and P2SH side by side), RAYON_NUM_THREADS in {1,2,3,8,16,64}, '
-               'repeated runs sharing ONE data directory (index reopened) and ONE dump folder pre-seeded with stale *.tmp files longer than the new output and with earlier results, under CPU contention; plus a 48-block index with stale siblings at every third height and a range whose unspent/balances result is header-only, a --verify chain with blocks of 192 and 320 transactions, simplestats -vv with a slow and a fast stdout consumer; '
+               'repeated runs sharing ONE data directory (index reopened) and ONE dump folder pre-seeded with stale *.tmp files longer than the new output and with earlier results, under CPU contention; plus a 48-block index with stale siblings at every third height and a range whose unspent/balances result is header-only, a --verify chain with blocks of 192 and 320 transactions, simplestats -vv with a slow and a fast stdout consumer, a run over 0..20 followed by --start 21 into the same dump folder; '
                'every run must equal the single model output (csvdump byte for byte, simplestats, opreturn lines, unspent/balances row sets); SHA-256 of blk*.dat / xor.dat and the dumped key/value '
                'set of the index must be the same before and after. Non-trivial: a block with >= 32 transactions or a transaction with >= 32 outputs; distinct by (case, threads, callback, run number).')
     ck.explanation = ('Proved in Coq: writing result i into slot i in any completion order equals the sequential map (collect_any_order), the model functions are pure, and the output protocol does not '
@@ -106,7 +106,27 @@ def explore(ck):
         ck.sample(dict(case=c.id, coin=c.coin, xor=bool(c.xor), runs=n, tx_per_block=[len(l) for l in [m['csv'][1]]], files_unchanged=(before == after), index_pairs=idx_before.count(b'\n')))
         shutil.rmtree(dd, ignore_errors=True); shutil.rmtree(out, ignore_errors=True)
 
+    two_legs(ck, next(c for c in cases if c.id == 'fork13'))
     slow_consumer(ck)
+
+def two_legs(ck, base):
+    """a sequence of runs sharing one dump folder: heights 0..20 first, then --start 21 into the same folder; the second result must be what it is in a fresh folder"""
+    import copy
+    leg1 = copy.copy(base); leg1.id = base.id + '_leg1'; leg1.meta = dict(base.meta); leg1.start = 0; leg1.end = 20      # (--end 0 would be rejected: --start must be lower than --end)
+    leg2 = copy.copy(base); leg2.id = base.id + '_leg2'; leg2.meta = dict(base.meta); leg2.start = 21; leg2.end = None
+    m2 = run.run_model(ck.tools, [leg2], ['unspent', 'balances', 'csv'])[leg2.id]
+    for cb in ('unspent', 'balances', 'csv'):
+        out = os.path.join(ck.tools.work, 'legs13_' + cb); os.makedirs(out, exist_ok=True)
+        r1 = run.run_impl(ck.tools, leg1, cb, outdir=out); left = dict(r1.files)
+        if r1.rc != 0 or not left: ck.disagreement('first leg of the two-leg sequence failed', 'rc=%s' % r1.rc, leg1, in_domain=False)
+        r2 = run.run_impl(ck.tools, leg2, cb, outdir=out)
+        ck.evaluated(); ck.count('two-leg sequences in one dump folder'); ck.nontrivial(('legs', cb))
+        changed = [n for n, d in left.items() if r2.files.get(n) != d and not n.endswith('.tmp')]
+        r2.files = {n: d for n, d in r2.files.items() if n not in left}
+        diffs = run.CMP[cb](r2, m2, leg2)
+        if changed: diffs.append('result files of the first run were modified by the second: %s' % changed)
+        if diffs: ck.disagreement('%s --start 21 after a run over 0..20 in the same dump folder' % cb, '\n'.join(diffs)[:1500], leg2, in_domain=True)
+        shutil.rmtree(out, ignore_errors=True)
 
 def slow_consumer(ck):
     """simplestats -vv on a chain of several hundred blocks with stdout drained slowly (1 KiB every few milliseconds): the figures must not depend on how fast the consumer reads"""
